@@ -130,6 +130,22 @@ CHECKS = {
               "ln(n)/rho are observation predicates evaluated by the harness, not by TLC"),
         technique="TLA+ exact-rational model of active-set and scaling checked by TLC; replay of all cases; numeric bound observations",
         design="9/C16"),
+    "C14": dict(
+        text=("Overhang.tla holds the direction table (strings over {+,-,none} x {x,y,z} in both orders and cases, sign by the "
+              "presence of a minus) and the exact layer sweep of Langelaar's filter at the admissible parameter point p=2, "
+              "xi_0=1/nsampling, eps=0, where smax is the sum of squares over the 3/5/9-point stencil in the previous layer "
+              "(clipped to the domain) and smin is min. TLC checks, for all 4/6 directions and all density fields over "
+              "{0,1/2,1} on small 2D/3D grids: base layer unchanged, y <= x, supported solid stays solid, unsupported material "
+              "removed, and equivariance under mirroring every axis and swapping x/y. Every emitted case is replayed on "
+              "OverhangFilter with every vector and string form of the direction; the parsed direction attribute and the "
+              "filtered field are compared with TLC's exact rationals. [O] at default parameters (p=40, eps=1e-4) the bound "
+              "y <= x + sqrt(eps)/2, base layer, solid-stays-solid, removal and mirror equivariance are evaluated "
+              "numerically on seeded random fields."),
+        note=(TLC_BASE + "; the 1e-152 regularisation shifts of the implementation are covered by an absolute tolerance of "
+              "1e-12 at the rational parameter point; the smooth-min/max bounds at default parameters are observation "
+              "predicates evaluated by the harness"),
+        technique="TLA+ exact-rational layer-sweep model checked by TLC; replay of all cases in every direction form; numeric observations",
+        design="9/C14"),
 }
 
 
